@@ -20,3 +20,8 @@ check("C08", OPS_TECH,
 for _pid in ("C01", "C02", "C07", "C09", "C10", "C11", "C12", "C13", "C15", "C16", "C17", "C18"):
     NOT_APPLICABLE[_pid] = "check under construction in this session (engine not yet committed); will be claimed or declined with a technical reason"
 NOT_APPLICABLE["C14"] = "every clause is an arithmetic relation between a text, an offset and computed line/column numbers; its truth is not in the shape of the code — deciding it needs an inductive numeric argument or exhaustive evaluation (other technique families). See DESIGN.md §4 C14."
+
+check("C01", "template extraction from generate() (abstract walk of the generators) + " + OPS_TECH + "; symtable/ast checks of the assembled module skeleton; sibling parity tables",
+      "Static: (a) the assembled module skeleton for five representative rule tables parses, resolves all names, orders import-time uses, and enumerates rules consistently; all f-string holes classified (hygiene); generated name families checked for collisions/injectivity. (b) both siblings of every operator, Rule (8 masks x 3 names) and parse_trivia (5 variants) meet the same contract K / specification on every abstract path; failure-recording parity; compiled-constant parity. (c) determinism: no nondeterministic/cross-call source in generators.",
+      "Two implementations meeting the same obligations are identical only modulo the trusted primitives and completeness of the obligations; label texts of failures are not compared; known findings F-A2, F-N1, F-V3.", "§4 C01")
+NOT_APPLICABLE.pop("C01", None)
